@@ -18,9 +18,10 @@ Proof. exact offer_allowed_iff. Qed.
 Theorem C08_control_gate : forall h c sid s to tag,
   conn_session h c sid s -> allowed_control s = false -> step h (OCtl c to tag) = (h, []).
 Proof. exact control_gate. Qed.
-(* Transient data writes without the permission are refused and change nothing. *)
+(* Transient data writes (kindn 0 = set, 1 = remove; anything else is answered "ignored" whoever asks) without the
+   permission are refused and change nothing. *)
 Theorem C08_transient_gate : forall h c sid s k kindn key val,
-  conn_session h c sid s -> s.(s_room) = Some k -> allowed_transient s = false ->
+  conn_session h c sid s -> s.(s_room) = Some k -> allowed_transient s = false -> (kindn <? 2) = true ->
   step h (OTransient c kindn key val) = (h, [ToConn c (SError E_not_allowed)]).
 Proof. exact transient_gate. Qed.
 (* ---- for every history (any limits, gated or not, any ops, step-by-step or quiescent runs) ---- *)
